@@ -118,3 +118,18 @@ def dense_of_terms(basis, terms):
     if terms and isinstance(terms[0], list):
         return sum(Mpo(Model(basis, grp)).todense() for grp in terms)
     return Mpo(Model(basis, terms)).todense()
+
+
+_SYM = {"I": np.eye(2), "Z": np.diag([1.0, -1.0]), "sigma_z": np.diag([1.0, -1.0]), "+": np.array([[0.0, 1.0], [0.0, 0.0]]),
+        "sigma_+": np.array([[0.0, 1.0], [0.0, 0.0]]), "-": np.array([[0.0, 0.0], [1.0, 0.0]]), "sigma_-": np.array([[0.0, 0.0], [1.0, 0.0]])}
+
+
+def term_dense(t, n):
+    """dense matrix of one Op over spin sites 0..n-1 from its symbols (textbook matrices), factor included"""
+    mats = [np.eye(2) for _ in range(n)]
+    for s, d in zip(t.split_symbol, t.dofs):
+        mats[d] = mats[d] @ _SYM[s]
+    m = np.ones((1, 1))
+    for x in mats:
+        m = np.kron(m, x)
+    return t.factor * m
